@@ -191,7 +191,7 @@ Proof.
         with ((pre ++ LL cs1) ++ leaf_links ch' ++ (LL cs2 ++ post))
         by (repeat rewrite <- app_assoc; reflexivity).
       apply Lk. repeat rewrite <- app_assoc in *. exact H.
-    + unfold leaf_ids at 1 3. cbn [leaf_links].
+    + unfold leaf_ids. cbn [leaf_links].
       eapply Permutation_trans; [|rewrite <- app_assoc; apply Permutation_app_head; exact P3].
       rewrite !map_fst_LL_zip1. apply perm_ctx. exact P1.
     + cbn [branch_ids].
@@ -217,4 +217,117 @@ Proof.
     + apply Permutation_refl.
 Qed.
 
+Lemma rem_spec : forall c z f (t : ptree) r lo hi h lm bm,
+  4 <= c -> ord lo hi t -> shape c r h t -> h < f ->
+  exists dl db t' removed under,
+    rem f lm bm t z = Ok (deallocs lm dl, deallocs bm db, t', removed, under) /\
+    rem_ok c z r lo hi h t dl db t' removed under.
+Proof.
+  intros c z f. induction f; intros * C O S Hf; [lia|].
+  destruct t as [id c' ks vs nx|id c' ks cs].
+  - destruct (rem_leaf_spec c z f r lo hi h id c' ks vs nx lm bm C O S) as (t' & rm & un & E & R).
+    exists [], [], t', rm, un. split; auto.
+  - apply rem_branch_spec; auto.
+    intros t0 lo0 hi0 h0 lm0 bm0 O0 S0 H0. apply IHf; auto.
+Qed.
+
+(* ---------------- collapse ---------------- *)
+Lemma collapse_spec : forall c h (t : ptree) lm bm,
+  4 <= c -> shape_r c h t ->
+  exists db t' h',
+    collapse (S (height t)) c lm bm t = Ok (lm, deallocs bm db, t') /\
+    shape c true h' t' /\ h' <= h /\
+    (ord None None t -> ord None None t') /\
+    contents t' = contents t /\ leaf_links t' = leaf_links t /\
+    Permutation (branch_ids t) (db ++ branch_ids t').
+Proof.
+  intros * C [S|(id & ch & h' & -> & -> & S)].
+  - exists [], t, h. split; [|split; [auto|split; [auto|split; [auto|split; [auto|split; [auto|apply Permutation_refl]]]]]].
+    inversion S; subst.
+    + reflexivity.
+    + specialize (H2 eq_refl). destruct ks as [|k0 ks]; [cbn [length] in H2; lia|].
+      destruct cs as [|c0 [|c1 cs]]; try discriminate. reflexivity.
+  - exists [id], ch, h'.
+    split; [|split; [|split; [|split; [|split; [|split]]]]].
+    + cbn [collapse]. cbn [height]. inversion S; subst.
+      * reflexivity.
+      * specialize (H1 eq_refl). destruct cs as [|c0 [|c1 [|c2 cs]]]; cbn [length] in *; try (hlia c).
+        reflexivity.
+    + apply shape_root_relax; auto.
+    + lia.
+    + intro O. apply ord_branch_inv in O; auto. destruct O as (_ & _ & O). simpl in O. tauto.
+    + simpl. rewrite app_nil_r. reflexivity.
+    + simpl. rewrite app_nil_r. reflexivity.
+    + simpl. rewrite app_nil_r. apply Permutation_refl.
+Qed.
+
+(* ---------------- main theorem ---------------- *)
+(* The two [room _ 0] hypotheses say that both arenas have fewer than 2^32-1 slots, so
+   that no allocated id equals NULL; [m_dealloc] ignores NULL, and [Inv] alone does not
+   exclude a node whose id is NULL. *)
+Theorem remove_inv : forall (b : bstate V) (z : Z),
+  Inv b -> room (lmeta b) 0 -> room (bmeta b) 0 ->
+  exists b' old,
+    b_remove b z = Ok (b', old) /\
+    Inv b' /\
+    cap b' = cap b /\
+    contents (root b') = m_remove (contents (root b)) z /\
+    old = m_get (contents (root b)) z /\
+    length (m_mask (lmeta b')) = length (m_mask (lmeta b)) /\
+    length (m_mask (bmeta b')) = length (m_mask (bmeta b)) /\
+    height (root b') <= height (root b).
+Proof.
+  intros b z [Icap Iord [h Ishape] Il Ib Ich] Rl Rb.
+  pose proof (shape_height Ishape) as Hh.
+  destruct (rem_spec (cap b) z (S (height (root b))) (root b) true None None h (lmeta b) (bmeta b)
+              Icap Iord Ishape ltac:(lia))
+    as (dl & db & t' & removed & under & E & R).
+  destruct R as (Ot & _ & _ & Sr & Ct & Rm & Nn & Lk & P1 & P2). specialize (Sr eq_refl).
+  unfold b_remove. rewrite E. cbn [bind].
+  destruct removed as [v|].
+  - destruct (collapse_spec (cap b) h t' (deallocs (lmeta b) dl) (deallocs (bmeta b) db) Icap Sr)
+      as (db2 & t'' & h'' & E2 & S2 & Hle & O2 & Ct2 & Ll2 & P3).
+    rewrite E2. cbn [bind].
+    eexists. eexists. split; [reflexivity|].
+    cbn [cap root lmeta bmeta].
+    split; [|split; [auto|split; [|split; [auto|split; [|split]]]]].
+    + constructor; cbn [cap root lmeta bmeta]; auto.
+      * eauto.
+      * unfold leaf_ids. rewrite Ll2. apply meta_ok_deallocs with (ids := leaf_ids (root b)); auto.
+        intros id I. apply (meta_ok_not_null Il Rl).
+        eapply Permutation_in; [apply Permutation_sym; exact P1|]. apply in_or_app; left; auto.
+      * rewrite <- deallocs_app.
+        assert (P4 : Permutation (branch_ids (root b)) ((db ++ db2) ++ branch_ids t'')).
+        { eapply Permutation_trans; [exact P2|]. rewrite <- app_assoc.
+          apply Permutation_app_head. exact P3. }
+        apply meta_ok_deallocs with (ids := branch_ids (root b)); auto.
+        intros id I. apply (meta_ok_not_null Ib Rb).
+        eapply Permutation_in; [apply Permutation_sym; exact P4|]. apply in_or_app; left; auto.
+      * unfold chain_ok in *. rewrite Ll2.
+        specialize (Lk [] [] NULL). simpl in Lk. rewrite !app_nil_r in Lk. auto.
+    + rewrite Ct2. exact Ct.
+    + apply length_mask_deallocs.
+    + rewrite length_mask_deallocs. apply length_mask_deallocs.
+    + rewrite (shape_height S2). lia.
+  - destruct (Nn eq_refl) as (-> & -> & -> & _).
+    eexists. eexists. split; [reflexivity|].
+    cbn [cap root lmeta bmeta]. unfold deallocs. cbn [fold_left].
+    split; [|split; [auto|split; [auto|split; [auto|split; [auto|split; auto]]]]].
+    constructor; cbn [cap root lmeta bmeta]; eauto.
+Qed.
+
+(* storage lengths are unchanged, so every [room] bound carries over to the new state *)
+Corollary remove_preserves_room : forall (b b' : bstate V) (z : Z) old n,
+  Inv b -> room (lmeta b) 0 -> room (bmeta b) 0 ->
+  b_remove b z = Ok (b', old) ->
+  (room (lmeta b) n -> room (lmeta b') n) /\ (room (bmeta b) n -> room (bmeta b') n).
+Proof.
+  intros b b' z old n I Rl Rb E.
+  destruct (remove_inv b z I Rl Rb) as (b2 & old2 & E2 & _ & _ & _ & _ & L1 & L2 & _).
+  rewrite E in E2. injection E2 as -> ->.
+  unfold room. rewrite L1, L2. auto.
+Qed.
+
 End RemoveProofs.
+
+Print Assumptions remove_inv.
